@@ -209,11 +209,9 @@ theorem go_weight (zs : List Z) (n : Int) (b : Bool) (st : Bool × Bool)
     simp [hs] at this
     simp only [W, weight, hs, he', Bool.false_eq_true, if_false]
     omega
-  | case4 z n b st ht he hsame =>
+  | case4 z n b st ht he =>
     rw [WPz.eq_def] at hw; simp at he; simp [he] at hw
-  | case5 z n b st ht he hsame =>
-    rw [WPz.eq_def] at hw; simp at he; simp [he] at hw
-  | case6 z n b st ht he z2 rest' hss ih =>
+  | case5 z n b st ht he z2 rest' hss ih =>
     -- neither overlapping: the vertex pair
     have he' : z.endpoint = true := by simpa using he
     have hs1 : z.same = false := by cases h : z.same <;> simp_all
@@ -227,7 +225,7 @@ theorem go_weight (zs : List Z) (n : Int) (b : Bool) (st : Bool × Bool)
     simp only [W, weight, hs1, hs2, he', hw'.1, Bool.false_eq_true, if_false, if_true]
     unfold dir at this ⊢
     cases hi1 : z.into <;> cases hi2 : z2.into <;> simp_all <;> omega
-  | case7 z n b st ht he z2 rest' hss hne into hov ih =>
+  | case6 z n b st ht he z2 rest' hss hne into hov ih =>
     -- entering an overlapping section
     have he' : z.endpoint = true := by simpa using he
     have hw' : z2.endpoint = true ∧ WPz rest' = true := by
@@ -248,7 +246,7 @@ theorem go_weight (zs : List Z) (n : Int) (b : Bool) (st : Bool × Bool)
     subst hI
     cases h1 : z.same <;> cases h2 : z2.same <;> cases hi1 : z.into <;> cases hi2 : z2.into <;>
       simp_all <;> omega
-  | case8 z n b st ht he z2 rest' hss hne into hov ih =>
+  | case7 z n b st ht he z2 rest' hss hne into hov ih =>
     -- leaving an overlapping section
     have he' : z.endpoint = true := by simpa using he
     have hw' : z2.endpoint = true ∧ WPz rest' = true := by
@@ -270,7 +268,7 @@ theorem go_weight (zs : List Z) (n : Int) (b : Bool) (st : Bool × Bool)
     clear ih hm hv hw hc hcond hpar hov hss
     cases h1 : z.same <;> cases h2 : z2.same <;> cases hi1 : z.into <;> cases hi2 : z2.into <;>
       cases hst2 : st.2 <;> simp [h1, h2, hi1, hi2, hst2] at this hne ⊢ <;> omega
-  | case9 z n b st ht he z2 rest' hss hne ih =>
+  | case8 z n b st ht he z2 rest' hss hne ih =>
     -- both overlapping
     have he' : z.endpoint = true := by simpa using he
     have hs1 : z.same = true := by cases h : z.same <;> cases h' : z2.same <;> simp_all
